@@ -215,3 +215,63 @@ func VHarness_C14_SnapshotHeaderFlip() {
 	}
 	vReach("done")
 }
+
+// C14 (shrunk snapshots): whatever the original snapshot file recorded in its
+// header (compression type, payload), the file ShrinkSnapshot produces is a
+// well-formed snapshot file that is recognised as shrunk, declares no
+// compression (the loader picks the decompressor from the header), carries
+// exactly the empty session table as payload and validates on close; the
+// original is not recognised as shrunk.  ReplaceSnapshot puts it in place.
+//vcheck: reach=shrunk,replaced,done workers=8
+func VHarness_C14_Shrink() {
+	n := vChoose("n", 3)
+	// an on-disk state machine's snapshot: session table + (n bytes of) user data
+	data := append(append([]byte(nil), GetEmptyLRUSession()...), make([]byte, n)...)
+	for i := 0; i < n; i++ {
+		data[len(data)-n+i] = vU8("d")
+	}
+	ct := pb.NoCompression
+	if vBool("snappyHeader") {
+		// the writer only records the type; compression itself is applied by the
+		// caller around the writer (not in scope here)
+		ct = pb.Snappy
+	}
+	fs := &vFS{files: map[string][]byte{}}
+	w, err := NewSnapshotWriter("ss", ct, fs)
+	vAssert(err == nil, "create-ok")
+	_, err = w.Write(data)
+	vAssert(err == nil, "write-ok")
+	vAssert(w.Close() == nil, "close-ok")
+	if n > 0 {
+		shrunk, err := IsShrunkSnapshotFile("ss", fs)
+		vAssert(err == nil && !shrunk, "full-snapshot-is-not-shrunk")
+	}
+	vAssert(ShrinkSnapshot("ss", "ss.shrunk", fs) == nil, "shrink-ok")
+	vReach("shrunk")
+	check := func(name string, tag string) {
+		shrunk, err := IsShrunkSnapshotFile(name, fs)
+		vAssert(err == nil && shrunk, tag+"recognised-as-shrunk")
+		r, h, err := NewSnapshotReader(name, fs)
+		vAssert(err == nil, tag+"open-ok")
+		vAssert(h.CompressionType == pb.NoCompression, tag+"shrunk-file-declares-no-compression")
+		vAssert(h.Version == uint64(V2), tag+"version")
+		empty := GetEmptyLRUSession()
+		got := make([]byte, len(empty))
+		m, err := io.ReadFull(r, got)
+		vAssert(err == nil && m == len(empty), tag+"payload-readable")
+		for i := range empty {
+			vAssert(got[i] == empty[i], tag+"payload-is-the-empty-session-table")
+		}
+		one := make([]byte, 1)
+		_, err = r.Read(one)
+		vAssert(err != nil, tag+"nothing-after-the-session-table")
+		vAssert(r.Close() == nil, tag+"validates-on-close")
+	}
+	check("ss.shrunk", "")
+	vAssert(ReplaceSnapshot("ss.shrunk", "ss", fs) == nil, "replace-ok")
+	vReach("replaced")
+	check("ss", "replaced-")
+	_, still := fs.files["ss.shrunk"]
+	vAssert(!still, "temporary-file-gone")
+	vReach("done")
+}
